@@ -30,7 +30,7 @@ def parse_key(k):
 
 def run(rep, tier, seed):
     from algopy import exact_interpolation as ei
-    maxn, maxd, maxcard = (4, 5, 40) if tier == "quick" else (5, 6, 130)
+    maxn, maxd, maxcard = (4, 5, 40) if tier == "quick" else (5, 5, 130)
     res = tlc_ok(run_tlc("MC_Interp", CFG % (maxn, maxd, maxcard, "TRUE"), workers=16, timeout=3000), "MC_Interp")
     rep.add_tlc(res, "MC_Interp")
     if not res.records:
